@@ -118,11 +118,11 @@ pub fn execute_tail(main_thread: JoinHandleV) -> (r: Result<(), VErr>)
 fn main() {{}}
 """
     obls = [Obl("C17.exit.run", ["C17", "C01"], fn="run_tail", desc="main, Run arm: a program that failed at run time (or did not compile) makes main return that very error -- exit status non-zero; a program that ran to its end makes it return Ok"),
-            Obl("C17.exit.execute", ["C17", "C01", "C04"], fn="execute_tail", desc="main, Execute arm: the runtime thread's error is main's result (exit status non-zero); success is success")]
+            Obl("C17.exit.execute", ["C17", "C01", "C04", "C18"], fn="execute_tail", desc="main, Execute arm: the runtime thread's error is main's result (exit status non-zero); success is success")]
     return gen, obls, log
 
 
-UNITS = [VUnit("c17_main_exit", ["C17", "C01", "C04"], "the exit status: what main does with the runtime thread's result", build)]
+UNITS = [VUnit("c17_main_exit", ["C17", "C01", "C04", "C18"], "the exit status: what main does with the runtime thread's result", build)]
 UNITS[0].assumes = ["thread::Builder::spawn / JoinHandle::join: the closure's result is what join yields (std); the closure bodies (compile, Program::execute) are not part of these fragments",
                     "a main that returns Err exits with a non-zero status, Ok with 0 (Rust's Termination for Result)",
                     "the `if profile { .. }` report of the Run arm only prints (checked syntactically: no return / ? / bail / assignment to `finished`)"]
